@@ -261,7 +261,10 @@ def byte_array(ctx, tname, length, sentinel=False):
     conds = [items_eq(out, pre + body), items_eq(bytes_items(got), body),
              z3.BoolVal(remaining(buf) == 0)]
     if tname != 'TrailingByteArray':
-        conds.append(_prefixes_raise(T, out))
+        # every cut for short arrays; the 4 shortest and 4 longest strict
+        # prefixes for the long ones (quadratic otherwise)
+        conds.append(_prefixes_raise(T, out,
+                                     cuts='all' if length <= 300 else 'ends'))
     note_key(ctx, 'C02:%s:%d' % (tname, length))
     return z3.And(*conds)
 
